@@ -20,15 +20,15 @@ theorem find_filter_ne (d : List ((Nat × Nat) × Nat)) (k k' : Nat × Nat) (h :
     · have h2 : ¬ a.1 = k' := fun e => h (e.symm.trans h1)
       subst h1
       simpa [List.filter_cons, List.find?_cons, h2] using ih
-    · simp [List.filter_cons, List.find?_cons, h1, ih]
+    · simp [List.find?_cons, h1, ih]
 
 theorem getDepth_setDepth (d : List ((Nat × Nat) × Nat)) (k k' : Nat × Nat) (v : Nat) :
     getDepth (setDepth d k v) k' = if k' = k then v else getDepth d k' := by
   unfold getDepth setDepth
   by_cases h : k' = k
-  · subst h; simp [List.find?_cons]
+  · subst h; simp
   · have h' : ¬ k = k' := fun e => h e.symm
-    simp [List.find?_cons, h, h', find_filter_ne d k k' h]
+    simp [h, h', find_filter_ne d k k' h]
 
 theorem needType_bind (s : WF) (t : Nat) (f : Unit → Except Why WF) (s' : WF) :
     (needType s t >>= f) = .ok s' ↔ t ∈ s.types ∧ f () = .ok s' := by
